@@ -65,7 +65,7 @@ def main(argv=None):
     mode = argv[1]
     if mode == 'batch':
         spec = json.loads(argv[2])
-        faulthandler.dump_traceback_later(spec.get('deadline_s', 3600) + 120, exit=True)
+        faulthandler.dump_traceback_later(spec.get('deadline_s', 3600) + 900, exit=True)
         batch(spec)
     elif mode == 'replay':
         faulthandler.dump_traceback_later(600, exit=True)
